@@ -1248,7 +1248,6 @@ func runC20(c *CaseCtx) (res CaseResult) {
 	return res
 }
 
-
 // runC18History: searches interleaved with mutations on ONE graph object and
 // its reversed views — every search must reflect the graph as it is at that
 // moment (no state may survive from an earlier search or be cached behind a
